@@ -119,7 +119,9 @@ def gen_type(rng, structs, enums, depth, profile):
         if structs:
             return ("struct", rng.choice(structs))
         return ("u", gen_width(rng))
-    else:  # fixed
+    else:  # fixed (fixedx: now and then a type the packed encoder must refuse)
+        if profile == "fixedx" and rng.random() < 0.04:
+            return rng.choice([("str",), ("dyn", ("u", 8)), ("opt", ("u", 8))])
         if not leaf and r < 0.25:
             k = rng.choice(["arr", "struct", "arr"])
             if k == "struct" and structs:
@@ -179,4 +181,53 @@ def gen_desc(rng, profile="serde", nstructs=None, max_fields=6, depth=3):
             rng.shuffle(fields)          # declaration order differs from id order
         desc["structs"].append({"name": f"S{i}", "fields": fields})
     # interleave enums and structs is not needed: enums first is always legal
+    return desc
+
+
+def field_names_deep(desc, sname, depth=2):
+    """Field names reachable from a struct (own, nested, derived array names) for signal-block naming."""
+    out = []
+    st = next(s for s in desc["structs"] if s["name"] == sname)
+    for f in st["fields"]:
+        out.append(f["name"])
+        t = f["type"]
+        if t[0] == "arr":
+            out += [f"{f['name']}_0", f"{f['name']}_1"]
+            if t[1][0] == "arr":
+                out.append(f"{f['name']}_0_0")
+            t = t[1]
+        if t[0] == "struct" and depth > 0:
+            out += field_names_deep(desc, t[1], depth - 1)
+    return out
+
+
+def add_can_impls(rng, desc, p=0.75, buses=None, with_period=False):
+    used_ids = set()
+    for s in desc["structs"]:
+        if rng.random() > p:
+            continue
+        fid = rng.randrange(0, 2048)
+        while fid in used_ids:
+            fid = rng.randrange(0, 2048)
+        used_ids.add(fid)
+        fields = [("id", fid)]
+        if rng.random() < 0.5:
+            fields.append(("device", rng.choice(["ecu", "bms", "dash"])))
+        if buses and rng.random() < 0.7:
+            fields.append(("bus", rng.choice(buses)))
+        names = field_names_deep(desc, s["name"])
+        sigs = []
+        for nm in rng.sample(names, min(len(names), rng.randint(0, 3))):
+            fs = []
+            if rng.random() < 0.6:
+                fs.append(("endianess", rng.choice(["big", "little"])))
+            if rng.random() < 0.4:
+                fs.append(("mux_count", rng.randint(1, 8)))
+                fs.append(("mux_signal", rng.choice(names)))
+            if not fs:
+                fs.append(("scale", rng.randint(1, 9)))
+            sigs.append({"name": nm, "fields": fs})
+        if rng.random() < 0.1:
+            sigs.append({"name": "nosuchfield", "fields": [("endianess", "big")]})
+        desc["impls"].append({"protocol": "can", "type": s["name"], "name": s["name"], "fields": fields, "signals": sigs})
     return desc
